@@ -168,7 +168,7 @@ pub struct MapEng<'c, KD: Kind, const N: usize> {
 
 #[inline]
 pub fn addr<T>(r: &T) -> usize {
-    r as *const T as usize
+    tl::addr_of(r)
 }
 
 impl<'c, KD: Kind, const N: usize> MapEng<'c, KD, N> {
@@ -470,6 +470,10 @@ impl<'c, KD: Kind, const N: usize> MapEng<'c, KD, N> {
                 }
                 cx.chk(p_leak, ok, "leak", || msg);
             }
+        }
+        {
+            let mis = tl::take_misaligned();
+            self.cx.chk(P_ADDR.and(Prop::C02).and(Prop::C17), mis == 0, "alignment", || format!("{mis} reference(s) handed out by the library are not aligned for their type"));
         }
         if malformed && !liar && !self.cx.failed() {
             // broken container, and the armed property does not own that for this operation:
